@@ -21,7 +21,7 @@ MANIFEST_ENTRY = {
 
 
 def tasks(tier, seed):
-    return [*UPDATE_ALL, dict(kind="custom", module="props.misc_tasks", fn="c09_constants")]
+    return [*UPDATE_ALL, dict(kind="custom", module="props.misc_tasks", fn="c09_constants"), dict(kind="custom", module="props.c04_tasks", fn="setup_clauses")]
 
 
 def replay(o):
